@@ -121,6 +121,16 @@ func load(c *Case, env *Env) (m *gonnx.Model, o outcome) {
 		}
 		o = guard(func() (err error) { m, err = gonnx.NewModelFromFile(p); return })
 		os.Remove(p)
+	case "file-missing", "file-dir":
+		// the medium has no such file / offers a directory: the reader fault of a lost or misplaced model file
+		p := filepath.Join(env.Scratch, fmt.Sprintf("no-such-model-%d.onnx", os.Getpid()))
+		if c.Reader == "file-dir" {
+			p = env.Scratch
+		}
+		o = guard(func() (err error) { m, err = gonnx.NewModelFromFile(p); return })
+		if o.kind == "ok" {
+			o = outcome{kind: "panic", pmsg: "a_Model_was_constructed_from_a_missing_file_or_a_directory", frame: "NewModelFromFile"}
+		}
 	case "zip-store", "zip-deflate":
 		// c.Data is the archive as it sits on the medium (already damaged, if so).
 		ra := &medium.FaultyReaderAt{Data: c.Data, FailFrom: c.ZipFail, FailLen: c.ZipLen, Mode: c.ZipMode}
@@ -177,6 +187,8 @@ func modelBytes(c *Case) ([]byte, bool) {
 	switch c.Reader {
 	case "", "bytes", "file":
 		return c.Data, true
+	case "file-missing", "file-dir":
+		return nil, false
 	}
 	if c.ZipFail >= 0 {
 		return nil, false
